@@ -1105,6 +1105,28 @@ def oracle_stream(ctx, rng, nprng, quick):
         if rng.random() < 0.3:
             arrs.append(A(np.cumsum(nprng.randint(1, 3, size=n)).astype(float), "float64"))
         add("visibility", arrs, [], "visibility:" + cls, kw=kw)
+    # node lists handed by the caller to the cross-network kernels (`A[nodes1[i], nodes2[j]]`): entries
+    # outside [0, N), negative, repeated, empty — an IndexError is a pass, a sanitizer report is not
+    for _ in range(8 if quick else 60):
+        n = rng.choice([2, 3, 4, 6, 8])
+        adj = np.triu((nprng.rand(n, n) < 0.5).astype(int), 1)
+        adj = adj + adj.T
+        bad = rng.choice(["negative", "N", "beyond", "repeated", "empty", "overlap"])
+        n1, n2 = list(range(n // 2)), list(range(n // 2, n))
+        if bad == "negative":
+            n1[rng.randrange(len(n1))] = rng.choice([-1, -n, -n - 1])
+        elif bad == "N":
+            n2[rng.randrange(len(n2))] = n
+        elif bad == "beyond":
+            n2.append(n + rng.randrange(1, 40))
+        elif bad == "repeated":
+            n1 = n1 + n1
+        elif bad == "empty":
+            n1 = []
+        else:
+            n2 = list(range(n))
+        add("sweep", [A(adj, "int8")], [], "interacting-node-lists:" + bad, kind="interacting",
+            kw={"n1": n1, "n2": n2}, timeout=30)
     if not quick:
         sweep_stream(lambda *a, **k: add(*a, timeout=30, **k), rng, nprng)
     else:
